@@ -155,6 +155,12 @@ func (p *Prog) AccumSeq(read ssa.CallInstruction) (ops []accOp, start string, re
 		if R == nil && blockOnCycle(op.Call.Block()) {
 			return nil, start, fmt.Sprintf("%s at %s is in a loop before the read", op.Method, p.InstrPos(op.Call))
 		}
+		// with a reset: the operation must not be able to run again without passing the reset (a Reset
+		// hoisted out of a loop leaves the writes of earlier iterations in the accumulator: Sum does
+		// not clear it)
+		if R != nil && canReachWithout(op.Call, op.Call, via) {
+			return nil, start, fmt.Sprintf("%s at %s can execute again (loop) without passing the %s: earlier iterations' input stays in the accumulator", op.Method, p.InstrPos(op.Call), start)
+		}
 		rel = append(rel, op)
 	}
 	sort.SliceStable(rel, func(i, j int) bool { return instrDominates(rel[i].Call, rel[j].Call) && rel[i].Call != rel[j].Call })
